@@ -110,6 +110,10 @@ fn judge(mon: &Monitor, table: &str, plan: &[Planned], cancel: Option<Duration>,
         Outcome::Pending => "pending",
     };
     mon.count(&format!("{table}.outcome.{oc}"), 1);
+    if adversarial && mon.want_sample() {
+        mon.sample(json!({"table": table, "plan": plan.iter().map(|p| format!("{:?}@{}us token={}", p.act, p.at.as_micros(), p.token)).collect::<Vec<_>>(),
+            "cancel_us": cancel.map(|c| c.as_micros() as u64), "observed": format!("{got:?}"), "expected": format!("{exp:?}")}));
+    }
     if got == exp {
         return;
     }
